@@ -1,6 +1,6 @@
 (* C46: The ordered block buffer yields blocks lowest round first.
    Only statements; each is closed by [exact] of a lemma in Proof/OrderBuffer.v. *)
-From ZC Require Import Model.OrderBuffer Proof.OrderBuffer Gen.OrderBufferLocks Model.OrderBufferLocks Proof.OrderBufferConc.
+From ZC Require Import Model.OrderBuffer Proof.OrderBuffer Gen.OrderBufferLocks Model.OrderBufferLocks Proof.LockAtomic Proof.OrderBufferConc.
 From Coq Require Import Sorting.Permutation.
 Open Scope Z_scope.
 
@@ -58,6 +58,17 @@ Theorem C46_concurrent_use :
     (forall t, In t threads -> forall o, In o t -> In o ops).
 Proof. exact ob_concurrent_use. Qed.
 Print Assumptions C46_concurrent_use.
+
+(* Micro-step version: goroutines take the mutex and read, later write and release; for EVERY
+   schedule the shared buffer equals the sequential run of the logged operations and satisfies the
+   invariants. *)
+Theorem C46_locked_schedules :
+  forall max (progs : list (list ob_op)) (sched : list nat),
+  let w := run_sched _ _ _ ob_step (init_world _ _ (ob_new max) progs) sched in
+  w_shared _ _ w = fst (ob_run (ob_new max) (w_log _ _ w)) /\
+  ob_sorted (ob_items (w_shared _ _ w)) /\ (length (ob_items (w_shared _ _ w)) <= max)%nat.
+Proof. exact ob_locked_schedule_inv. Qed.
+Print Assumptions C46_locked_schedules.
 
 (* Non-vacuity: a concrete reachable buffer exercising insertion, truncation and a repeat. *)
 Example C46_example :
